@@ -38,6 +38,7 @@ def handle (line : String) : String :=
   | "macro" :: rest => handleMacro rest
   | "makeargs" :: rest => handleMakeArgs rest
   | "builderr" :: rest => handleBuildErr rest
+  | "getlines" :: rest => handleGetLines rest
   | "pipeline" :: rest => handlePipeline rest
   | "ping" :: _ => "pong"
   | _ => "bad-request"
